@@ -113,6 +113,404 @@ def translate():
     return w, [x[1] for x in r], sizes.pop()
 
 
+# ---------------------------------------------------------------------------------------------------
+# the unsigned 64-bit code: rotl, splitmix64, seed_with_sm64, xoshiro256ss::seed / operator() / operator==
+#   -> terms of Vita.C07.U (lean/Vita/C07/U64E.lean), written to lean/Vita/C07/GenCode.lean
+# ---------------------------------------------------------------------------------------------------
+OPS = {"+": "add", "-": "sub", "*": "mul", "^": "xor", "|": "or", "&": "and", "<<": "shl", ">>": "shr"}
+U64 = ("unsigned long", "const unsigned long")
+SPLITMIX = "vigna::(anonymous namespace)::splitmix64"
+
+
+def only(docs, pred, what):
+    c = [d for d in docs if pred(d)]
+    if len(c) != 1:
+        raise Refuse("expected exactly one %s, found %d" % (what, len(c)))
+    return c[0]
+
+
+def has_body(d):
+    return any(k.get("kind") == "CompoundStmt" for k in kids(d))
+
+
+def body_stmts(fn):
+    return kids([k for k in kids(fn) if k.get("kind") == "CompoundStmt"][0])
+
+
+def strip_casts(n):
+    """value-preserving wrappers: parentheses, lvalue-to-rvalue, no-op casts"""
+    while True:
+        k = n.get("kind")
+        if k in ("ParenExpr", "ExprWithCleanups", "ConstantExpr") and len(kids(n)) == 1:
+            n = kids(n)[0]
+        elif k == "ImplicitCastExpr" and n.get("castKind") in ("LValueToRValue", "NoOp") and len(kids(n)) == 1:
+            n = kids(n)[0]
+        else:
+            return n
+
+
+class Code:
+    """translator of one function body; `this` is `engine` (has `state`) or `splitmix` (has `x`) or None"""
+
+    def __init__(self, this, params, def_seed, size):
+        self.this, self.params, self.locals, self.def_seed, self.size = this, list(params), [], def_seed, size
+
+    def is_this(self, n):
+        return strip_casts(n).get("kind") == "CXXThisExpr"
+
+    def state_index(self, n):
+        """this->state[<literal>] -> index"""
+        n = strip_casts(n)
+        if n.get("kind") != "CXXOperatorCallExpr" or len(kids(n)) != 3:
+            return None
+        callee = strip_casts(kids(n)[0])
+        while callee.get("kind") == "ImplicitCastExpr":
+            callee = kids(callee)[0]
+        if callee.get("referencedDecl", {}).get("name") != "operator[]":
+            return None
+        arr = strip_casts(kids(n)[1])
+        if arr.get("kind") != "MemberExpr" or arr.get("name") != "state" or not self.is_this(kids(arr)[0]) \
+                or self.this != "engine":
+            raise Refuse("subscript of something that is not this->state")
+        m = re.search(r"std::array<unsigned long, (\d+)>", qtype(arr))
+        if not m or int(m.group(1)) != self.size:
+            raise Refuse("state is not std::array<unsigned long, %d>: %s" % (self.size, qtype(arr)))
+        idx = kids(n)[2]
+        while idx.get("kind") == "ImplicitCastExpr" and idx.get("castKind") == "IntegralCast":
+            idx = kids(idx)[0]
+        idx = strip_casts(idx)
+        if idx.get("kind") != "IntegerLiteral":
+            raise Refuse("state index is not an integer literal (%s)" % idx.get("kind"))
+        return int(idx.get("value"))
+
+    def is_x(self, n):
+        n = strip_casts(n)
+        return n.get("kind") == "MemberExpr" and n.get("name") == "x" and self.is_this(kids(n)[0]) \
+            and self.this == "splitmix"
+
+    def expr(self, n):
+        n = strip_casts(n)
+        k = n.get("kind")
+        if k == "ImplicitCastExpr" and n.get("castKind") == "IntegralCast":
+            inner = strip_casts(kids(n)[0])
+            if inner.get("kind") == "IntegerLiteral" and int(inner.get("value")) >= 0:
+                return ("lit", int(inner.get("value")))
+            raise Refuse("integral conversion of a non-literal (%s -> %s)" % (qtype(inner), qtype(n)))
+        if k == "IntegerLiteral":
+            v = int(n.get("value"))
+            if v < 0:
+                raise Refuse("negative literal")
+            return ("lit", v)
+        i = self.state_index(n)
+        if i is not None:
+            return ("st", i)
+        if self.is_x(n):
+            return ("x",)
+        if k == "DeclRefExpr":
+            rd = n.get("referencedDecl", {})
+            name = rd.get("name")
+            if rd.get("kind") == "ParmVarDecl" and name in self.params:
+                return ("arg", self.params.index(name))
+            if rd.get("kind") == "VarDecl" and name in self.locals:
+                return ("loc", self.locals.index(name))
+            if rd.get("kind") == "VarDecl" and name == "def_seed" and self.def_seed is not None:
+                return ("lit", self.def_seed)
+            raise Refuse("reference to %s %r" % (rd.get("kind"), name))
+        if k == "BinaryOperator" and n.get("opcode") in OPS:
+            if qtype(n) not in U64 + ("int",):
+                raise Refuse("arithmetic at type %s" % qtype(n))
+            a, b = kids(n)
+            return ("bin", OPS[n["opcode"]], self.expr(a), self.expr(b))
+        if k == "CallExpr":
+            ks = kids(n)
+            callee = strip_casts(ks[0])
+            while callee.get("kind") == "ImplicitCastExpr":
+                callee = kids(callee)[0]
+            if callee.get("referencedDecl", {}).get("name") == "rotl" and len(ks) == 3 and \
+                    "std::uint64_t (std::uint64_t, int)" in qtype(callee):
+                return ("rotl", self.expr(ks[1]), self.expr(ks[2]))
+            raise Refuse("call of %r" % callee.get("referencedDecl", {}).get("name"))
+        raise Refuse("expression node %s" % k)
+
+    def assign_target(self, n):
+        i = self.state_index(n)
+        if i is not None:
+            return ("st", i)
+        if self.is_x(n):
+            return ("x",)
+        n = strip_casts(n)
+        if n.get("kind") == "DeclRefExpr":
+            rd = n.get("referencedDecl", {})
+            if rd.get("kind") == "ParmVarDecl" and rd.get("name") in self.params:
+                return ("arg", self.params.index(rd["name"]))
+            if rd.get("kind") == "VarDecl" and rd.get("name") in self.locals:
+                return ("loc", self.locals.index(rd["name"]))
+        raise Refuse("assignment to %s" % n.get("kind"))
+
+    def compound(self, n):
+        """`lhs op= rhs` -> statement"""
+        op = n.get("opcode", "")[:-1]
+        if op not in OPS:
+            raise Refuse("compound assignment %s" % n.get("opcode"))
+        t = self.assign_target(kids(n)[0])
+        e = self.expr(kids(n)[1])
+        if t[0] == "st":
+            return ("updSt", t[1], OPS[op], e)
+        if t[0] == "x":
+            return ("updX", OPS[op], e)
+        raise Refuse("compound assignment to a %s" % t[0])
+
+    def stmt(self, s):
+        """-> list of statements"""
+        k = s.get("kind")
+        if k == "CompoundStmt":
+            return [x for c in kids(s) for x in self.stmt(c)]
+        if k == "NullStmt":
+            return []
+        if k == "DeclStmt":
+            out = []
+            for d in kids(s):
+                if d.get("kind") != "VarDecl" or len(kids(d)) != 1:
+                    raise Refuse("declaration %s" % d.get("kind"))
+                init = kids(d)[0]
+                if qtype(d) == SPLITMIX:
+                    if init.get("kind") != "CXXConstructExpr" or len(kids(init)) != 1 or d.get("name") != "sm":
+                        raise Refuse("construction of splitmix64 is not `splitmix64 sm(<expr>)`")
+                    out.append(("newSm", self.expr(kids(init)[0])))
+                    continue
+                if qtype(d) not in U64:
+                    raise Refuse("local %s of type %s" % (d.get("name"), qtype(d)))
+                core = strip_casts(init)
+                if core.get("kind") == "CompoundAssignOperator":     # auto z(x += K): x updated, then read
+                    st = self.compound(core)
+                    out.append(st)
+                    out.append(("decl", ("x",) if st[0] == "updX" else ("st", st[1])))
+                else:
+                    out.append(("decl", self.expr(init)))
+                self.locals.append(d.get("name"))
+            return out
+        if k == "CompoundAssignOperator":
+            return [self.compound(s)]
+        if k == "BinaryOperator" and s.get("opcode") == "=":
+            t = self.assign_target(kids(s)[0])
+            e = self.expr(kids(s)[1])
+            return [{"st": ("setSt", t[1], e) if t[0] == "st" else None, "loc": ("setLoc", t[-1], e),
+                     "arg": ("setArg", t[-1], e)}.get(t[0]) or _refuse("assignment to x")]
+        if k == "IfStmt":
+            ks = kids(s)
+            if s.get("hasElse") or s.get("hasInit") or s.get("hasVar") or len(ks) != 2:
+                raise Refuse("if with else / initialiser")
+            c = strip_casts(ks[0])
+            if c.get("kind") != "BinaryOperator" or c.get("opcode") != "==":
+                raise Refuse("condition is not `a == b`")
+            then = self.stmt(ks[1])
+            if len(then) != 1:
+                raise Refuse("the controlled statement is not a single statement")
+            return [("ifEq", self.expr(kids(c)[0]), self.expr(kids(c)[1]), then[0])]
+        if k == "ReturnStmt":
+            return [("ret", self.expr(kids(s)[0]))]
+        if k == "CallExpr":
+            ks = kids(s)
+            callee = strip_casts(ks[0])
+            while callee.get("kind") == "ImplicitCastExpr":
+                callee = kids(callee)[0]
+            name = callee.get("referencedDecl", {}).get("name")
+            if name == "seed_with_sm64" and len(ks) == 3:
+                arr = strip_casts(ks[2])
+                if arr.get("kind") != "MemberExpr" or arr.get("name") != "state" or not self.is_this(kids(arr)[0]):
+                    raise Refuse("seed_with_sm64 is not applied to this->state")
+                if "std::array<unsigned long, %d> &" % self.size not in qtype(callee):
+                    raise Refuse("seed_with_sm64 instantiated for %s" % qtype(callee))
+                return [("seedWith", self.expr(ks[1]))]
+            if name == "generate" and len(ks) == 4:
+                return [self.generate(ks, qtype(callee))]
+            raise Refuse("call of %r as a statement" % name)
+        raise Refuse("statement %s" % k)
+
+    def generate(self, ks, callee_type):
+        """std::generate(state.begin(), state.end(), [&sm]{ return sm.next(); })"""
+        if not callee_type.startswith("void (unsigned long *, unsigned long *, (lambda"):
+            raise Refuse("generate is not std::generate over unsigned long *: " + callee_type[:80])
+        for a, want in ((ks[1], "begin"), (ks[2], "end")):
+            a = strip_casts(a)
+            if a.get("kind") != "CXXMemberCallExpr":
+                raise Refuse("generate range is not state.begin(), state.end()")
+            me = strip_casts(kids(a)[0])
+            base = strip_casts(kids(me)[0])
+            if me.get("name") != want or base.get("referencedDecl", {}).get("name") != "state" or \
+                    "std::array<unsigned long, %d>" % self.size not in qtype(base):
+                raise Refuse("generate range is not state.begin(), state.end()")
+        lam = strip_casts(ks[3])
+        while lam.get("kind") in ("MaterializeTemporaryExpr", "CXXConstructExpr", "ImplicitCastExpr",
+                                  "CXXBindTemporaryExpr") and len(kids(lam)) == 1:
+            lam = kids(lam)[0]
+        if lam.get("kind") != "LambdaExpr":
+            raise Refuse("third argument of generate is not a lambda (%s)" % lam.get("kind"))
+        rec = [c for c in kids(lam) if c.get("kind") == "CXXRecordDecl"][0]
+        fields = [c for c in kids(rec) if c.get("kind") == "FieldDecl"]
+        if len(fields) != 1 or qtype(fields[0]) != SPLITMIX + " &":
+            raise Refuse("the lambda does not capture exactly `sm` by reference")
+        body = [c for c in kids(lam) if c.get("kind") == "CompoundStmt"][0]
+        st = kids(body)
+        ok = len(st) == 1 and st[0].get("kind") == "ReturnStmt"
+        if ok:
+            call = strip_casts(kids(st[0])[0])
+            ok = call.get("kind") == "CXXMemberCallExpr" and len(kids(call)) == 1
+            if ok:
+                me = strip_casts(kids(call)[0])
+                obj = strip_casts(kids(me)[0])
+                ok = me.get("name") == "next" and obj.get("referencedDecl", {}).get("name") == "sm"
+        if not ok:
+            raise Refuse("the lambda is not `[&sm]{ return sm.next(); }`")
+        return ("generate", self.size)
+
+
+def _refuse(msg):
+    raise Refuse(msg)
+
+
+def translate_code(size):
+    rot = only(ast_dump("rng_tu.cc", "vigna::rotl"), lambda d: d.get("kind") == "FunctionDecl" and has_body(d), "rotl")
+    ps = [k.get("name") for k in kids(rot) if k.get("kind") == "ParmVarDecl"]
+    if "std::uint64_t (std::uint64_t, int)" not in qtype(rot) or len(ps) != 2:
+        raise Refuse("rotl is not std::uint64_t (std::uint64_t, int)")
+    st = body_stmts(rot)
+    if len(st) != 1 or st[0].get("kind") != "ReturnStmt":
+        raise Refuse("rotl is not a single return")
+    rotl_e = Code(None, ps, None, size).expr(kids(st[0])[0])
+
+    docs = ast_dump("rng_tu.cc", "splitmix64::splitmix64")
+    ctor = only(docs, lambda d: d.get("kind") == "CXXConstructorDecl" and has_body(d), "splitmix64 constructor")
+    ps = [k.get("name") for k in kids(ctor) if k.get("kind") == "ParmVarDecl"]
+    inits = [k for k in kids(ctor) if k.get("kind") == "CXXCtorInitializer"]
+    if len(inits) != 1 or inits[0].get("anyInit", {}).get("name") != "x" or body_stmts(ctor):
+        raise Refuse("splitmix64 constructor is not `: x(<expr>) {}`")
+    sm_ctor = Code(None, ps, None, size).expr(kids(inits[0])[0])
+
+    nxt = only(ast_dump("rng_tu.cc", "splitmix64::next"),
+               lambda d: d.get("kind") == "CXXMethodDecl" and has_body(d), "splitmix64::next")
+    sm_next = Code("splitmix", [], None, size).stmt({"kind": "CompoundStmt", "inner": body_stmts(nxt)})
+
+    dd = [d for d in ast_dump("rng_tu.cc", "vigna::xoshiro256ss::def_seed") if d.get("kind") == "VarDecl" and kids(d)]
+    if len(dd) != 1 or strip_casts(kids(dd[0])[0]).get("kind") != "IntegerLiteral":
+        raise Refuse("def_seed is not initialised with an integer literal")
+    def_seed = int(strip_casts(kids(dd[0])[0]).get("value"))
+
+    tmpl = only(ast_dump("rng_tu.cc", "seed_with_sm64"), lambda d: d.get("kind") == "FunctionTemplateDecl",
+                "seed_with_sm64")
+    inst = only(kids(tmpl), lambda d: d.get("kind") == "FunctionDecl" and has_body(d) and
+                ("std::array<unsigned long, %d> &" % size) in qtype(d), "instantiation of seed_with_sm64 for N=%d" % size)
+    ps = [k.get("name") for k in kids(inst) if k.get("kind") == "ParmVarDecl"]
+    seed_with = Code(None, ps[:1], None, size).stmt({"kind": "CompoundStmt", "inner": body_stmts(inst)})
+
+    sd = only(ast_dump("rng_tu.cc", "vigna::xoshiro256ss::seed"),
+              lambda d: d.get("kind") == "CXXMethodDecl" and has_body(d) and
+              len([k for k in kids(d) if k.get("kind") == "ParmVarDecl"]) == 1, "xoshiro256ss::seed(result_type)")
+    ps = [k.get("name") for k in kids(sd) if k.get("kind") == "ParmVarDecl"]
+    seed = Code("engine", ps, def_seed, size).stmt({"kind": "CompoundStmt", "inner": body_stmts(sd)})
+
+    op = only(ast_dump("rng_tu.cc", "vigna::xoshiro256ss::operator()"),
+              lambda d: d.get("kind") == "CXXMethodDecl" and has_body(d), "xoshiro256ss::operator()")
+    if [k for k in kids(op) if k.get("kind") == "ParmVarDecl"]:
+        raise Refuse("operator() takes parameters")
+    nxt_e = Code("engine", [], def_seed, size).stmt({"kind": "CompoundStmt", "inner": body_stmts(op)})
+
+    eq = only(ast_dump("rng_tu.cc", "vigna::xoshiro256ss::operator=="),
+              lambda d: d.get("kind") == "CXXMethodDecl" and has_body(d), "xoshiro256ss::operator==")
+    rhs = [k.get("name") for k in kids(eq) if k.get("kind") == "ParmVarDecl"]
+    st = body_stmts(eq)
+    if len(st) != 1 or st[0].get("kind") != "ReturnStmt":
+        raise Refuse("operator== is not a single return")
+    call = strip_casts(kids(st[0])[0])
+    ok = call.get("kind") == "CXXOperatorCallExpr" and len(kids(call)) == 3
+    if ok:
+        callee = kids(call)[0]
+        while callee.get("kind") == "ImplicitCastExpr":
+            callee = kids(callee)[0]
+        a, b = strip_casts(kids(call)[1]), strip_casts(kids(call)[2])
+        ok = callee.get("referencedDecl", {}).get("name") == "operator==" and \
+            re.search(r"array<unsigned long, %dUL?> &, const (std::)?array<unsigned long, %dUL?> &" % (size, size),
+                      qtype(callee)) is not None and \
+            a.get("kind") == "MemberExpr" and a.get("name") == "state" and \
+            strip_casts(kids(a)[0]).get("kind") == "CXXThisExpr" and \
+            b.get("kind") == "MemberExpr" and b.get("name") == "state" and \
+            strip_casts(kids(b)[0]).get("referencedDecl", {}).get("name") == rhs[0]
+    if not ok:
+        raise Refuse("operator== is not `return state == rhs.state;` on std::array<std::uint64_t, %d>" % size)
+    eq_pairs = [(i, i) for i in range(size)]        # std::array's operator== = std::equal over all elements
+    return {"rotlE": rotl_e, "smCtor": sm_ctor, "smNext": sm_next, "seedWith": seed_with, "seed": seed,
+            "next": nxt_e, "eqPairs": eq_pairs, "size": size, "def_seed": def_seed}
+
+
+def lean_e(t):
+    h = t[0]
+    if h == "lit":
+        return "(.lit %d)" % t[1]
+    if h in ("st", "loc", "arg"):
+        return "(.%s %d)" % (h, t[1])
+    if h == "x":
+        return ".x"
+    if h == "bin":
+        return "(.bin .%s %s %s)" % (t[1], lean_e(t[2]), lean_e(t[3]))
+    if h == "rotl":
+        return "(.rotl %s %s)" % (lean_e(t[1]), lean_e(t[2]))
+    raise Refuse("render " + h)
+
+
+def lean_s(t):
+    h = t[0]
+    if h in ("decl", "newSm", "seedWith", "ret"):
+        return "(.%s %s)" % (h, lean_e(t[1]))
+    if h in ("setLoc", "setArg", "setSt"):
+        return "(.%s %d %s)" % (h, t[1], lean_e(t[2]))
+    if h == "updSt":
+        return "(.updSt %d .%s %s)" % (t[1], t[2], lean_e(t[3]))
+    if h == "updX":
+        return "(.updX .%s %s)" % (t[1], lean_e(t[2]))
+    if h == "ifEq":
+        return "(.ifEq %s %s %s)" % (lean_e(t[1]), lean_e(t[2]), lean_s(t[3]))
+    if h == "generate":
+        return "(.generate %d)" % t[1]
+    raise Refuse("render " + h)
+
+
+def emit_code(path, size):
+    c = translate_code(size)
+
+    def block(ss):
+        return "[" + ",\n     ".join(lean_s(x) for x in ss) + "]"
+    txt = "\n".join([
+        "-- GENERATED by tools/translate_rng.py from /repo/src/utility/xoshiro256ss.{h,cc}",
+        "-- (regenerated on every check run; do not edit)",
+        "import Vita.C07.U64E", "namespace Vita.C07.GenCode", "open Vita.C07.U", "",
+        "/-- `vigna::rotl(x, k)`: x = arg 0, k = arg 1 -/",
+        "def rotlE : E := %s" % lean_e(c["rotlE"]), "",
+        "/-- `splitmix64::splitmix64(seed) : x(…)` -/",
+        "def smCtor : E := %s" % lean_e(c["smCtor"]), "",
+        "/-- `splitmix64::next()` -/",
+        "def smNext : List S :=\n    %s" % block(c["smNext"]), "",
+        "/-- `seed_with_sm64(seed, state)` instantiated for `std::array<std::uint64_t, %d>` -/" % size,
+        "def seedWith : List S :=\n    %s" % block(c["seedWith"]), "",
+        "/-- `xoshiro256ss::seed(result_type s)` (`def_seed` = %d) -/" % c["def_seed"],
+        "def seed : List S :=\n    %s" % block(c["seed"]), "",
+        "/-- `xoshiro256ss::operator()()` -/",
+        "def next : List S :=\n    %s" % block(c["next"]), "",
+        "/-- `xoshiro256ss::operator==`: the pairs (i, j) of `state[i] == rhs.state[j]` compared -/",
+        "def eqPairs : List (Nat × Nat) := [%s]" % ", ".join("(%d, %d)" % p for p in c["eqPairs"]), "",
+        "def prog : Prog :=",
+        "  { rotlE := rotlE, smCtor := smCtor, smNext := smNext, seedWith := seedWith, seed := seed, next := next,",
+        "    eqPairs := eqPairs, size := %d }" % size, "",
+        "end Vita.C07.GenCode", ""])
+    old = open(path).read() if os.path.exists(path) else None
+    if old != txt:
+        with open(path, "w") as f:
+            f.write(txt)
+    info = {"functions": ["rotl", "splitmix64::splitmix64", "splitmix64::next", "seed_with_sm64<array<u64,%d>>" % size,
+                          "xoshiro256ss::seed", "xoshiro256ss::operator()", "xoshiro256ss::operator=="],
+            "statements": {k: len(c[k]) for k in ("smNext", "seedWith", "seed", "next")}, "def_seed": c["def_seed"]}
+    return info, old is not None and old != txt
+
+
 def lean_char(c):
     return "(Char.ofNat %d)" % c
 
@@ -146,6 +544,8 @@ if __name__ == "__main__":
     try:
         info, changed = emit(os.path.join(here, "lean", "Vita", "C07", "Gen.lean"))
         print("translated:", info, "(changed)" if changed else "")
+        info2, changed2 = emit_code(os.path.join(here, "lean", "Vita", "C07", "GenCode.lean"), info["state_size"])
+        print("translated:", info2, "(changed)" if changed2 else "")
     except Refuse as e:
         print("REFUSE:", e)
         sys.exit(2)
